@@ -36,7 +36,7 @@ ASSUMPTIONS = [
 
 HEADER = '''From Coq Require Import String.
 From Coq Require Import NArith ZArith List. Import ListNotations.
-From PV Require Import Yanny.Bytes Yanny.Types Yanny.Parse Yanny.Render C03.Model. Open Scope N_scope.'''
+From PV Require Import Yanny.Bytes Yanny.Types Yanny.Parse Yanny.Render C03.Model C03.Append. Open Scope N_scope.'''
 
 OUT_CODE = {'ok': 0, 'PydlutilsException': 1, 'warning': 2, 'ValueError': 3}
 COMMENTS = ['c', 'second write', 'copy of the file', 'x  y', 'FOO 1 2', 'k v']
@@ -182,6 +182,14 @@ def gen_op(rng, h, kinds=None):
                        'form': rng.choice(['lists', 'recarray'])})
         if rng.random() < 0.2:
             es.append({'k': 'symbols', 'text': 'ignored'})
+        if rng.random() < 0.2:
+            # the same table under BOTH spellings: append() takes the lower-case key and never looks at the other
+            tabs = [e for e in es if 'table' in e]
+            e0 = tabs[0]
+            other = e0['k'].upper() if e0['k'] != e0['k'].upper() else e0['k'].lower()
+            if other != e0['k'] and other not in [e['k'] for e in es]:
+                es.append({'k': other, 'table': e0['table'], 'rows': gen_rows(rng, doc, e0['table'], rng.randint(1, 2)),
+                           'form': rng.choice(['lists', 'recarray'])})
         rng.shuffle(es)
         return {'op': 'append', 'entries': es, 'clock': h.tick(), 'tag': k}
     if k == 'append_empty':
@@ -343,6 +351,16 @@ def direct_checks(doc, raw, ops, res):
             nb = st.get('bytes_hex') or ''
             if not nb.startswith(pb) or len(nb) <= len(pb):
                 bad.append((k, 'append-changed-earlier-bytes', ''))
+            else:
+                added = bytes.fromhex(nb[len(pb):]).decode('latin-1')
+                npairs = len(h.doc.get('hdr') or []) - len(before_doc.get('hdr') or [])
+                nrows = sum(len(t['rows']) for t in h.doc['tables']) - sum(len(t['rows']) for t in before_doc['tables'])
+                marker = '# Appended by yanny.py at %s.\n' % op['clock']
+                if not added.startswith(marker):
+                    bad.append((k, 'append-marker-line-missing', repr(added[:80])))
+                elif want == 'ok' and (not added.endswith('\n') or added.count('\n') != 1 + npairs + nrows):
+                    bad.append((k, 'append-wrote-wrong-number-of-lines', '%d lines for %d new pairs and %d new rows'
+                                % (added.count('\n') - 1, npairs, nrows)))
             other_before = {f: s for f, s in prev['files'].items() if f != prev['filename']}
             other_after = {f: s for f, s in st['files'].items() if f != st['filename']}
             if other_before != other_after:
@@ -409,7 +427,7 @@ def evaluate(ctx, hists, tag='cases'):
             terms.append('(CHist %s %s %s [])' % (G.doc_term(doc), G.blit('f0.par'), C.boollit(raw)))
         else:
             terms.append(case_term(doc, raw, ops, res, exps))
-    cc = C.CoqCases(ctx.work, HEADER, 'run_cases', shard=ctx.n(8, 40))
+    cc = C.CoqCases(ctx.work, HEADER, 'run_cases_dom', shard=ctx.n(8, 40))
     verdicts = cc.run(terms, tag=tag)
     ctx.coverage['coq_eval_s'] = round(ctx.coverage.get('coq_eval_s', 0) + cc.coq_seconds, 1)
     return results, infos, verdicts, terms
@@ -448,26 +466,26 @@ def shrink(ctx, doc, raw, ops, kind):
 
 
 def correspond(ctx, proof_ok=True):
-    ok, log = C.coq_make(['C03/Model.vo'])
+    ok, log = C.coq_make(['C03/Append.vo'])
     if not ok:
-        raise RuntimeError('C03/Model.v does not build:\n' + log[-2000:])
+        raise RuntimeError('C03/Append.v does not build:\n' + log[-2000:])
     bo = oracle_check(ctx.rng, ctx.n(10000, 200000))
     if bo:
         ctx.violation('C03:oracle:float-text-rerender', 'numpy float text is not reproduced when a read value is printed again: %r' % (bo[:3],),
                       {'kind': 'broken-correspondence', 'item': 'oracle: str(np.floatN(float(t))) == t', 'examples': bo[:10]}, False)
     rng = ctx.rng
     hists = []
-    for i in range(ctx.n(90, 900)):
+    for i in range(ctx.n(250, 3000)):
         doc, ops = gen_history(rng, rng.randint(1, 12))
         hists.append((doc, rng.random() < 0.4, ops))
     if ctx.thorough:
         for doc, ops in exhaustive_histories(4):
             hists.append((doc, False, ops))
-        for doc, ops in exhaustive_histories(3):
+        for doc, ops in exhaustive_histories(4):
             hists.append((doc, True, ops))
     else:
-        for doc, ops in exhaustive_histories(2):
-            hists.append((doc, len(ops) % 2 == 0, ops))
+        for k, (doc, ops) in enumerate(exhaustive_histories(3)):
+            hists.append((doc, k % 3 == 0, ops))
     results, infos, verdicts, terms = evaluate(ctx, hists)
 
     dist = {}
@@ -475,13 +493,17 @@ def correspond(ctx, proof_ok=True):
     nsteps = 0
     seen = set()
     groups = {}
+    outside = []
     for (doc, raw, ops), res, bad, v in zip(hists, results, infos, verdicts):
         for op, st in zip(ops, res.get('steps', [])):
             nsteps += 1
             key = '%s:%s' % (op['tag'], st['outcome'])
             dist[key] = dist.get(key, 0) + 1
-        if v == 8:
+        if v in (8, 12):
             raise RuntimeError('initial document does not render/parse in the model: %r' % (doc,))
+        if v & 4:       # the history is outside the domain of the theorems (Append.in_domain); still compared with the model
+            v -= 4
+            outside.append((doc, raw, ops))
         spec_bad = bool(v & 2)
         if bad:
             kind = bad[0][1]
@@ -512,6 +534,11 @@ def correspond(ctx, proof_ok=True):
                        'original_bad': bad[:3], 'coq_verdict': v, 'histories_failing_this_way': len(lst),
                        'meaning': 'verdict = 16*step + flags: +1 model differs from implementation, +2 the object is not the '
                                   'specified history content (Model.spec_state)'}, True)
+    if len(outside) * 10 > len(hists):
+        ctx.violation('C03:harness:generator-outside-theorem-domain',
+                      '%d of %d generated histories are outside the domain of the C03 theorems (Append.in_domain)' % (len(outside), len(hists)),
+                      {'kind': 'broken-correspondence', 'item': 'C03.Append.in_domain vs harness generator', 'doc': outside[0][0],
+                       'raw': outside[0][1], 'ops': outside[0][2]}, False)
     ctx.coverage.update({
         'evaluations': nsteps,
         'distinct_nontrivial': len(set(terms)),
@@ -521,6 +548,8 @@ def correspond(ctx, proof_ok=True):
                 'nothing); distinct = distinct histories',
         'histories': len(hists),
         'raw_histories': sum(1 for h in hists if h[1]),
+        'histories_in_theorem_domain': len(hists) - len(outside),
+        'first_history_outside_domain': ({'doc': outside[0][0], 'ops': outside[0][2]} if outside else None),
         'ops_by_kind_and_outcome': dist,
         'histories_failing': sum(len(x) for x in groups.values()),
         'samples': [{'doc': hists[0][0], 'raw': hists[0][1], 'ops': hists[0][2]}, {'coq_case': terms[0][:700]}],
